@@ -101,6 +101,11 @@ func StringToAmount(s string) (massutil.Amount, error) {
 	if f < 0 {
 		return massutil.ZeroAmount(), fmt.Errorf("illegal number format")
 	}
+	// ParseInt tolerates an explicit sign ("1.+5", "-0"); a plain decimal
+	// numeral consists of digits only.
+	if !isDecimalDigits(sInt) || !isDecimalDigits(sFrac) {
+		return massutil.ZeroAmount(), fmt.Errorf("illegal number format")
+	}
 
 	u := safetype.NewUint128FromUint(consensus.MaxwellPerMass)
 	u, err = u.MulInt(i)
@@ -116,6 +121,15 @@ func StringToAmount(s string) (massutil.Amount, error) {
 		return massutil.ZeroAmount(), err
 	}
 	return total, nil
+}
+
+func isDecimalDigits(s string) bool {
+	for i := 0; i < len(s); i++ {
+		if s[i] < '0' || s[i] > '9' {
+			return false
+		}
+	}
+	return len(s) > 0
 }
 
 func checkLocktime(locktime uint64) error {
